@@ -180,6 +180,27 @@ impl Binaries {
     }
 }
 
+/// Where the interposer appends one line of call counts per process (set once by a check that wants the numbers).
+pub static INTERPOSER_LOG: std::sync::OnceLock<PathBuf> = std::sync::OnceLock::new();
+
+/// Sum of the interposer's per-process call counts: how often each seam actually answered.
+pub fn interposer_totals() -> std::collections::BTreeMap<String, u64> {
+    let mut m = std::collections::BTreeMap::new();
+    if let Some(p) = INTERPOSER_LOG.get() {
+        if let Ok(text) = std::fs::read_to_string(p) {
+            for line in text.lines() {
+                *m.entry("processes_with_interposer".to_string()).or_insert(0) += 1;
+                for kv in line.split_whitespace().skip(1) {
+                    if let Some((k, v)) = kv.split_once('=') {
+                        *m.entry(format!("{k}_calls_answered")).or_insert(0) += v.parse::<u64>().unwrap_or(0);
+                    }
+                }
+            }
+        }
+    }
+    m
+}
+
 /// Run anthem once. `extra_env` is applied last (PATH for the stand-in prover, coordinator socket).
 pub fn run_anthem(bins: &Binaries, args: &[String], cwd: &Path, stdin: Option<&[u8]>, env: &Env, extra_env: &[(String, String)], timeout_s: u64) -> std::io::Result<ProcOut> {
     let mut cmd = Command::new(&bins.anthem);
@@ -189,6 +210,9 @@ pub fn run_anthem(bins: &Binaries, args: &[String], cwd: &Path, stdin: Option<&[
     cmd.env("HOME", "/nonexistent");
     if env.preload {
         cmd.env("LD_PRELOAD", &bins.preload);
+        if let Some(log) = INTERPOSER_LOG.get() {
+            cmd.env("VERIF_ENV_LOG", log);
+        }
         if let Some(h) = env.hash_seed {
             cmd.env("VERIF_ENV_HASHSEED", h.to_string());
         }
